@@ -5,18 +5,18 @@ CONSTANTS
  r1 = r1
  r2 = r2
  x = x
- Node = {o, r1, x}
+ Node = {o, r1, r2, x}
  Adv = adv
  Flags <- FlagsDef
  Cands <- CandsSmall
- FirstHops <- FirstHopsDef
+ FirstHops <- FirstHopsTwo
  MaxJoined = 10
  MaxEarly = 3
- Tries = 2
+ Tries = 3
  NextHop = 4 Unstable = 24 CacheTO = 4 Inactive = 8 RemoveDelay = 2 SweepEvery = 2 PingEvery = 3 MaxTime = 1000
  CreateGuard = TRUE
- MaxCircuits = 1 MaxData = 0 MaxLoss = 0 MaxDup = 0 MaxAdv = 2 MaxNow = 0
- Goals = {1, 2}
+ MaxCircuits = 1 MaxData = 0 MaxLoss = 0 MaxDup = 0 MaxAdv = 1 MaxNow = 4
+ Goals = {2}
  Origins = {o}
  AdvKinds = {"mangle"}
  NodeRank <- RankDef
